@@ -91,6 +91,19 @@ func mnOracleK(what string, W, x, b *M, kappa2, factor float64) *vk.Failure {
 }
 
 func checkSVD(c svdCase) *vk.Failure {
+	f := checkSVDInner(c)
+	// Open finding: for numerically rank-deficient input with min(m,n) > 128 (the
+	// blocked bidiagonalisation path of Dgesvd) the singular vectors lose
+	// orthogonality. Failures on such inputs are collected under one key so that
+	// all other inputs stay checked with the precise keys.
+	if f != nil && (c.Class == "rankdef" || c.Class == "zero") && minInt(c.M, c.N) > 128 {
+		f.Msg = f.Key + ": " + f.Msg
+		f.Key = "rankdef-blocked-path"
+	}
+	return f
+}
+
+func checkSVDInner(c svdCase) *vk.Failure {
 	m, n := c.M, c.N
 	k := minInt(m, n)
 	mx := maxInt(m, n)
@@ -238,7 +251,10 @@ func checkSVD(c svdCase) *vk.Failure {
 	var resid []float64
 	x, err, label, f := solveCall("solve", c.opnd, n, b, sm,
 		func(dst *mat.Dense, bm mat.Matrix) error { resid = svd.SolveTo(dst, bm, rank); return nil },
-		func(dst *mat.VecDense, bv mat.Vector) error { resid = []float64{svd.SolveVecTo(dst, bv, rank)}; return nil })
+		func(dst *mat.VecDense, bv mat.Vector) error {
+			resid = []float64{svd.SolveVecTo(dst, bv, rank)}
+			return nil
+		})
 	_ = err
 	vk.Class("svd/" + label)
 	if f != nil {
